@@ -47,6 +47,10 @@ struct Cmd {
     /// the caller has its descriptor 0 closed when it spawns (the kernel then hands 0 out to the
     /// pipe or /dev/null that spawn opens for the child's stdin)
     stdin_closed: bool,
+    /// the caller's real user id differs from its effective and saved one when it spawns
+    /// (setresuid(65534, 0, 0), the state of a set-uid helper): a configured uid must still end up
+    /// in all three ids of the child
+    split_ids: bool,
     exit: i32,
 }
 
@@ -62,7 +66,7 @@ fn dumpenv_path() -> String {
 }
 
 fn base_cmds() -> Vec<Cmd> {
-    let c = |io: [Io; 3]| Cmd { missing_bin: false, args: vec![], env: None, cwd: false, pgroup: false, uid: None, gid: None, io, closures: vec![], twice: false, stdin_closed: false, exit: 42 };
+    let c = |io: [Io; 3]| Cmd { missing_bin: false, args: vec![], env: None, cwd: false, pgroup: false, uid: None, gid: None, io, closures: vec![], twice: false, stdin_closed: false, split_ids: false, exit: 42 };
     let mut v = vec![
         c([Io::Default; 3]),
         c([Io::Null, Io::Null, Io::Null]),
@@ -100,6 +104,10 @@ fn base_cmds() -> Vec<Cmd> {
     let mut z2 = c([Io::Null, Io::Null, Io::Null]);
     z2.stdin_closed = true;
     v.push(z2);
+    let mut sp = c([Io::Null, Io::Null, Io::Null]);
+    sp.uid = Some(65534);
+    sp.split_ids = true;
+    v.push(sp);
     v.push(c([Io::Null, Io::Null, Io::CallerStdout]));
     v.push(c([Io::Null, Io::Pipe, Io::CallerStdout]));
     let mut e = c([Io::Pipe, Io::Null, Io::Pipe]);
@@ -179,6 +187,7 @@ fn gen_cmd(dec: &mut Dec) -> Cmd {
         closures,
         twice: false,
         stdin_closed: false,
+        split_ids: dec.chance(K::Arg, 1, 6),
         exit,
     }
 }
@@ -197,6 +206,9 @@ struct Dump {
     pgid: i32,
     uid: u32,
     gid: u32,
+    /// effective and saved user id (u32::MAX: the dump has none)
+    euid: u32,
+    suid: u32,
     fds: [Option<(u64, u64, i32)>; 3],
     complete: bool,
 }
@@ -206,7 +218,7 @@ fn unhex(s: &str) -> Vec<u8> {
 }
 
 fn parse_dump(s: &str) -> Dump {
-    let mut d = Dump { args: vec![], env: vec![], cwd: vec![], pid: 0, pgid: 0, uid: 0, gid: 0, fds: [None; 3], complete: false };
+    let mut d = Dump { args: vec![], env: vec![], cwd: vec![], pid: 0, pgid: 0, uid: 0, gid: 0, euid: u32::MAX, suid: u32::MAX, fds: [None; 3], complete: false };
     for l in s.lines() {
         let (k, v) = l.split_once(' ').unwrap_or((l, ""));
         match k {
@@ -217,6 +229,8 @@ fn parse_dump(s: &str) -> Dump {
             "pgid" => d.pgid = v.parse().unwrap_or(0),
             "uid" => d.uid = v.parse().unwrap_or(0),
             "gid" => d.gid = v.parse().unwrap_or(0),
+            "euid" => d.euid = v.parse().unwrap_or(u32::MAX),
+            "suid" => d.suid = v.parse().unwrap_or(u32::MAX),
             "fd0" | "fd1" | "fd2" => {
                 let i = (k.as_bytes()[2] - b'0') as usize;
                 if v != "closed" {
@@ -301,6 +315,9 @@ fn run_cmd(cmd: &Cmd, plan: Option<Plan>, dec: Dec, record: bool, slot: u64) -> 
     } else {
         -1
     };
+    if cmd.split_ids {
+        unsafe { libc::setresuid(65534, 0, 0) };
+    }
     let my_pgid = unsafe { libc::getpgid(0) };
     let my_cwd = std::env::current_dir().unwrap();
 
@@ -436,6 +453,9 @@ fn run_cmd(cmd: &Cmd, plan: Option<Plan>, dec: Dec, record: bool, slot: u64) -> 
     for fd in raw_fds_to_close {
         unsafe { libc::close(fd) };
     }
+    if cmd.split_ids {
+        unsafe { libc::setresuid(0, 0, 0) };
+    }
     if saved_stdin >= 0 {
         unsafe {
             libc::dup2(saved_stdin, 0);
@@ -531,8 +551,10 @@ fn run_cmd(cmd: &Cmd, plan: Option<Plan>, dec: Dec, record: bool, slot: u64) -> 
                     viol = mism("cwd", format!("cwd is {}", String::from_utf8_lossy(&d.cwd)));
                 } else if cmd.pgroup && d.pgid != d.pid || !cmd.pgroup && d.pgid != my_pgid {
                     viol = mism("pgid", format!("pgid {} (pid {}, caller's pgid {my_pgid}, pgroup configured: {})", d.pgid, d.pid, cmd.pgroup));
-                } else if d.uid != cmd.uid.unwrap_or(0) || d.gid != cmd.gid.unwrap_or(0) {
+                } else if d.uid != cmd.uid.unwrap_or(if cmd.split_ids { 65534 } else { 0 }) || d.gid != cmd.gid.unwrap_or(0) {
                     viol = mism("ids", format!("uid/gid {}/{} configured {:?}/{:?}", d.uid, d.gid, cmd.uid, cmd.gid));
+                } else if d.euid != u32::MAX && (d.euid != cmd.uid.unwrap_or(0) || d.suid != cmd.uid.unwrap_or(0)) {
+                    viol = mism("ids", format!("effective/saved uid {}/{} (real {}), configured {:?}, the caller's real/effective/saved uid were {}/0/0", d.euid, d.suid, d.uid, cmd.uid, if cmd.split_ids { 65534 } else { 0 }));
                 } else {
                     for i in 0..3 {
                         let exp = match cmd.io[i] {
